@@ -69,6 +69,14 @@ Theorem C06_variables_in_formulas_denote_their_bindings : forall s : sym, wfs s 
 Proof. exact create_symbol_undoes_the_encoding. Qed.
 Theorem C06_strings_keep_their_text : forall s : string, unquote (quote s) = s.
 Proof. exact unquote_quote. Qed.
+(* a ground term written as the argument of an atom - numbers, strings, constants, function terms, tuples, unary minus, + and -, nested - reaches
+   telingo in two forms: inside a BODY formula as the theory term gringo delivers (in_body), looked up through create_symbol; inside a HEAD formula as
+   the syntax tree of clingo's parser (in_head), turned into a term of the rewritten rule (to_term: TheoryTermToTermTransformer of transformers/head.py)
+   that gringo evaluates (eval).  Both give the same symbol, or both give none *)
+Theorem C06_head_and_body_formulas_read_atom_arguments_alike : forall (sg : string -> sym) (w : wterm), wfw w = true ->
+  create_symbol (in_body w) = obind (to_term (in_head w)) (eval sg).
+Proof. intros sg w W. exact (proj1 (head_and_body_read_arguments_alike sg w W)). Qed.
+Print Assumptions C06_head_and_body_formulas_read_atom_arguments_alike.
 Print Assumptions C06_variables_in_formulas_denote_their_bindings.
 Print Assumptions C06_strings_keep_their_text.
 Print Assumptions C06_transformer_commutes_with_instantiation.
